@@ -347,5 +347,27 @@ def run(ctx):
     res.min_nontrivial = 0 if ctx.replay else ctx.pick(150, 600)
     with core.Build() as b:
         simrun.run_scenarios(res, b, scn, plist, jobs=ctx.jobs)
+        # memcheck pass: the same scenarios, fewer of them, with non-sanitized programs under valgrind memcheck (uninitialised
+        # values and the invalid accesses ASan's red zones cannot see); the first error ends the program
+        if not ctx.replay or (ctx.replay.get("witness") or {}).get("params", {}).get("memcheck"):
+            mlist = [dict(p, idx=500000 + j, memcheck=True, tunnel_s=min(p["tunnel_s"], 15)) for j, p in enumerate(plist[::max(1, len(plist) // ctx.pick(16, 400))][:ctx.pick(16, 400)])]
+            if ctx.replay:
+                mlist = [ctx.replay["witness"]["params"]]
+            if mlist:
+                with core.Build(sanitize=False) as b2:
+                    mres = core.Result()
+                    simrun.run_scenarios(mres, b2, scn, mlist, jobs=ctx.jobs, memcheck_=True)
+                    simrun.finalize_sets(mres)
+                res.violations += mres.violations
+                res.harness_errors += mres.harness_errors
+                res.evaluations += mres.evaluations
+                res.inconclusive += mres.inconclusive
+                res.scenarios = getattr(res, "scenarios", 0) + getattr(mres, "scenarios", 0)
+                for kk, vv in mres.inconclusive_why.items():
+                    res.inconclusive_why[kk] = res.inconclusive_why.get(kk, 0) + vv
+                res.extra["memcheck_scenarios"] = len(mlist)
+                res.extra["memcheck_evaluations"] = mres.evaluations
+                for sig in mres.nontrivial:
+                    res.nt("memcheck " + sig)
     simrun.finalize_sets(res)
     return res
